@@ -50,6 +50,7 @@ HUNIVERSES = {
 }
 NRANDOMH = {'quick': 2000, 'thorough': 20000}
 HDEFECTS = ('H-cache-nonempty', 'H-double-damp')
+MAXREPLAYS = 40
 DEFECTS = ('C19-hmin-starts-at-1', 'C19-empty-array-hmin',
            'C19-dt-adapt-ghost-only', 'C19-dt-adapt-no-particles')
 INPUT_KEYS = ('cfl', 'dt', 'fixed_h', 'late', 'arrays')
@@ -438,9 +439,13 @@ def judge(chk, traces_by_id, verdicts):
                 all(chk.known(k) for k in v['known']):
             for k in v['known']:
                 chk.known_hit(k)
-        else:
+        elif len(chk.violations) < MAXREPLAYS:
             chk.violation(what, dict(case=inputs_of(tr), id=v['id'],
                                      trace=tr, verdict=r))
+        else:
+            # (replay files only for the first ones; all are counted)
+            chk.cov['violations_without_replay_file'] = \
+                chk.cov.get('violations_without_replay_file', 0) + 1
     return ndrift
 
 
